@@ -1,0 +1,144 @@
+//go:build verif
+
+// Contracts for hseq (properties C03, C01, C02). Comment-only file: see /verif/DESIGN.md
+// sections 2.1, 3 and 6/C03. reflect.Type is a value of the Layout datatype; flatten is the
+// depth-first listing of a struct's fields (spec template Hseq in /verif/specs/list.smt2).
+
+package hseq
+
+//@ fileprops C03
+
+// the name of an entry is the first comma-separated part of its hseq tag, else the field name
+//@ func (Type) FieldKey
+//@   pure
+//@   ensures result == fieldkey(self)
+
+// unfold appends the listing of cat's fields: one entry per field in declaration order, an
+// embedded struct (by value or by pointer) followed by its own fields, consecutive IDs, root
+// offsets accumulated along value embedding
+//@ func unfold
+//@   opt slices=owned
+//@   opt overflow=off
+//@   opt lemmas=drop_nth,drop_len
+//@   ghost seq0 := seq
+//@   panics_when !isstruct(cat)
+//@   ensures listing: result == flatten(fieldsof(cat), offset, seq0)
+//@   loop 0 invariant 0 <= i && i <= len(fieldsof(cat))
+//@   loop 0 invariant flatten(drop(i, fieldsof(cat)), offset, seq) == flatten(fieldsof(cat), offset, seq0)
+//@   loop 0 decreases len(fieldsof(cat)) - i
+
+// New lists all fields of T (of *T's element), or the entries of the requested names in the
+// requested order; it fails loudly for a non-struct or an unknown name
+//@ func New
+//@   opt overflow=off
+//@   opt lemmas=nth_upd,len_upd,drop_nth
+//@   ghost cat := pureof(rtypeof(T))
+//@   ghost all := flatten(fieldsof(pureof(rtypeof(T))), 0, [])
+//@   panics_when !isstruct(cat) || !allhave(all, names)
+//@   ensures full_listing: len(names) == 0 ==> result == all
+//@   ensures selection_keeps_requested_order: len(names) > 0 ==> len(result) == len(names) && (forall j Int :: 0 <= j && j < len(names) ==> result[j] == firstname(all, names[j]))
+//@   loop 0 invariant seq == all && len(nseq) == len(names) && idx + len(rest) == len(names) && rest == drop(idx, names) && allhave(all, names) == allhave(all, rest)
+//@   loop 0 invariant forall j Int :: 0 <= j && j < idx ==> nseq[j] == firstname(all, names[j])
+
+// lookups return the first matching entry of the listing or fail loudly
+//@ func ForType
+//@   panics_when !hastype(seq, rtypeof(A))
+//@   ensures first_entry_of_that_type: result == firsttype(seq, rtypeof(A))
+//@   loop 0 invariant hastype(rest, rtypeof(A)) == hastype(seq, rtypeof(A)) && (hastype(seq, rtypeof(A)) ==> firsttype(rest, rtypeof(A)) == firsttype(seq, rtypeof(A)))
+
+//@ func ForName
+//@   panics_when !hasname(seq, field)
+//@   ensures first_entry_of_that_name: result == firstname(seq, field)
+//@   loop 0 invariant hasname(rest, field) == hasname(seq, field) && (hasname(seq, field) ==> firstname(rest, field) == firstname(seq, field))
+
+//@ func ForNameMaybe
+//@   ensures reports_absence: result1 == hasname(seq, field)
+//@   ensures first_entry_of_that_name: result1 ==> result == firstname(seq, field)
+//@   loop 0 invariant hasname(rest, field) == hasname(seq, field) && (hasname(seq, field) ==> firstname(rest, field) == firstname(seq, field))
+
+//@ func FMap
+//@   opt overflow=off
+//@   opt lemmas=nth_upd,len_upd,drop_nth
+//@   ensures one_result_per_entry_in_order: len(result) == len(seq) && (forall j Int :: 0 <= j && j < len(seq) ==> result[j] == app(f, seq[j]))
+//@   loop 0 invariant len(val) == len(seq) && idx + len(rest) == len(seq) && rest == drop(idx, seq) && (forall j Int :: 0 <= j && j < idx ==> val[j] == app(f, seq[j]))
+
+//@ func New1
+//@   ghost all := flatten(fieldsof(pureof(rtypeof(T))), 0, [])
+//@   panics_when !isstruct(pureof(rtypeof(T))) || !hastype(all, rtypeof(A))
+//@   ensures one_entry_per_requested_type_in_order: result == [firsttype(all, rtypeof(A))]
+
+//@ func New2
+//@   ghost all := flatten(fieldsof(pureof(rtypeof(T))), 0, [])
+//@   panics_when !isstruct(pureof(rtypeof(T))) || !hastype(all, rtypeof(A)) || !hastype(all, rtypeof(B))
+//@   ensures one_entry_per_requested_type_in_order: result == [firsttype(all, rtypeof(A)), firsttype(all, rtypeof(B))]
+
+//@ func New3
+//@   ghost all := flatten(fieldsof(pureof(rtypeof(T))), 0, [])
+//@   panics_when !isstruct(pureof(rtypeof(T))) || !hastype(all, rtypeof(A)) || !hastype(all, rtypeof(B)) || !hastype(all, rtypeof(C))
+//@   ensures one_entry_per_requested_type_in_order: result == [firsttype(all, rtypeof(A)), firsttype(all, rtypeof(B)), firsttype(all, rtypeof(C))]
+
+//@ func New4
+//@   ghost all := flatten(fieldsof(pureof(rtypeof(T))), 0, [])
+//@   panics_when !isstruct(pureof(rtypeof(T))) || !hastype(all, rtypeof(A)) || !hastype(all, rtypeof(B)) || !hastype(all, rtypeof(C)) || !hastype(all, rtypeof(D))
+//@   ensures one_entry_per_requested_type_in_order: result == [firsttype(all, rtypeof(A)), firsttype(all, rtypeof(B)), firsttype(all, rtypeof(C)), firsttype(all, rtypeof(D))]
+
+//@ func New5
+//@   ghost all := flatten(fieldsof(pureof(rtypeof(T))), 0, [])
+//@   panics_when !isstruct(pureof(rtypeof(T))) || !hastype(all, rtypeof(A)) || !hastype(all, rtypeof(B)) || !hastype(all, rtypeof(C)) || !hastype(all, rtypeof(D)) || !hastype(all, rtypeof(E))
+//@   ensures one_entry_per_requested_type_in_order: result == [firsttype(all, rtypeof(A)), firsttype(all, rtypeof(B)), firsttype(all, rtypeof(C)), firsttype(all, rtypeof(D)), firsttype(all, rtypeof(E))]
+
+//@ func New6
+//@   ghost all := flatten(fieldsof(pureof(rtypeof(T))), 0, [])
+//@   panics_when !isstruct(pureof(rtypeof(T))) || !hastype(all, rtypeof(A)) || !hastype(all, rtypeof(B)) || !hastype(all, rtypeof(C)) || !hastype(all, rtypeof(D)) || !hastype(all, rtypeof(E)) || !hastype(all, rtypeof(F))
+//@   ensures one_entry_per_requested_type_in_order: result == [firsttype(all, rtypeof(A)), firsttype(all, rtypeof(B)), firsttype(all, rtypeof(C)), firsttype(all, rtypeof(D)), firsttype(all, rtypeof(E)), firsttype(all, rtypeof(F))]
+
+//@ func New7
+//@   ghost all := flatten(fieldsof(pureof(rtypeof(T))), 0, [])
+//@   panics_when !isstruct(pureof(rtypeof(T))) || !hastype(all, rtypeof(A)) || !hastype(all, rtypeof(B)) || !hastype(all, rtypeof(C)) || !hastype(all, rtypeof(D)) || !hastype(all, rtypeof(E)) || !hastype(all, rtypeof(F)) || !hastype(all, rtypeof(G))
+//@   ensures one_entry_per_requested_type_in_order: result == [firsttype(all, rtypeof(A)), firsttype(all, rtypeof(B)), firsttype(all, rtypeof(C)), firsttype(all, rtypeof(D)), firsttype(all, rtypeof(E)), firsttype(all, rtypeof(F)), firsttype(all, rtypeof(G))]
+
+//@ func New8
+//@   ghost all := flatten(fieldsof(pureof(rtypeof(T))), 0, [])
+//@   panics_when !isstruct(pureof(rtypeof(T))) || !hastype(all, rtypeof(A)) || !hastype(all, rtypeof(B)) || !hastype(all, rtypeof(C)) || !hastype(all, rtypeof(D)) || !hastype(all, rtypeof(E)) || !hastype(all, rtypeof(F)) || !hastype(all, rtypeof(G)) || !hastype(all, rtypeof(H))
+//@   ensures one_entry_per_requested_type_in_order: result == [firsttype(all, rtypeof(A)), firsttype(all, rtypeof(B)), firsttype(all, rtypeof(C)), firsttype(all, rtypeof(D)), firsttype(all, rtypeof(E)), firsttype(all, rtypeof(F)), firsttype(all, rtypeof(G)), firsttype(all, rtypeof(H))]
+
+//@ func New9
+//@   ghost all := flatten(fieldsof(pureof(rtypeof(T))), 0, [])
+//@   panics_when !isstruct(pureof(rtypeof(T))) || !hastype(all, rtypeof(A)) || !hastype(all, rtypeof(B)) || !hastype(all, rtypeof(C)) || !hastype(all, rtypeof(D)) || !hastype(all, rtypeof(E)) || !hastype(all, rtypeof(F)) || !hastype(all, rtypeof(G)) || !hastype(all, rtypeof(H)) || !hastype(all, rtypeof(I))
+//@   ensures one_entry_per_requested_type_in_order: result == [firsttype(all, rtypeof(A)), firsttype(all, rtypeof(B)), firsttype(all, rtypeof(C)), firsttype(all, rtypeof(D)), firsttype(all, rtypeof(E)), firsttype(all, rtypeof(F)), firsttype(all, rtypeof(G)), firsttype(all, rtypeof(H)), firsttype(all, rtypeof(I))]
+
+//@ func FMap1
+//@   requires len(ts) >= 1
+//@   ensures ith_entry_to_ith_function: result == app($2, $1[0])
+
+//@ func FMap2
+//@   requires len(ts) >= 2
+//@   ensures ith_entry_to_ith_function: result == app($2, $1[0]) && result1 == app($3, $1[1])
+
+//@ func FMap3
+//@   requires len(ts) >= 3
+//@   ensures ith_entry_to_ith_function: result == app($2, $1[0]) && result1 == app($3, $1[1]) && result2 == app($4, $1[2])
+
+//@ func FMap4
+//@   requires len(ts) >= 4
+//@   ensures ith_entry_to_ith_function: result == app($2, $1[0]) && result1 == app($3, $1[1]) && result2 == app($4, $1[2]) && result3 == app($5, $1[3])
+
+//@ func FMap5
+//@   requires len(ts) >= 5
+//@   ensures ith_entry_to_ith_function: result == app($2, $1[0]) && result1 == app($3, $1[1]) && result2 == app($4, $1[2]) && result3 == app($5, $1[3]) && result4 == app($6, $1[4])
+
+//@ func FMap6
+//@   requires len(ts) >= 6
+//@   ensures ith_entry_to_ith_function: result == app($2, $1[0]) && result1 == app($3, $1[1]) && result2 == app($4, $1[2]) && result3 == app($5, $1[3]) && result4 == app($6, $1[4]) && result5 == app($7, $1[5])
+
+//@ func FMap7
+//@   requires len(ts) >= 7
+//@   ensures ith_entry_to_ith_function: result == app($2, $1[0]) && result1 == app($3, $1[1]) && result2 == app($4, $1[2]) && result3 == app($5, $1[3]) && result4 == app($6, $1[4]) && result5 == app($7, $1[5]) && result6 == app($8, $1[6])
+
+//@ func FMap8
+//@   requires len(ts) >= 8
+//@   ensures ith_entry_to_ith_function: result == app($2, $1[0]) && result1 == app($3, $1[1]) && result2 == app($4, $1[2]) && result3 == app($5, $1[3]) && result4 == app($6, $1[4]) && result5 == app($7, $1[5]) && result6 == app($8, $1[6]) && result7 == app($9, $1[7])
+
+//@ func FMap9
+//@   requires len(ts) >= 9
+//@   ensures ith_entry_to_ith_function: result == app($2, $1[0]) && result1 == app($3, $1[1]) && result2 == app($4, $1[2]) && result3 == app($5, $1[3]) && result4 == app($6, $1[4]) && result5 == app($7, $1[5]) && result6 == app($8, $1[6]) && result7 == app($9, $1[7]) && result8 == app($10, $1[8])
